@@ -3,14 +3,30 @@
 From Coq Require Import ZArith.
 From OCI Require Import Machine Checkers.
 From OCI.proofs Require Import ArithOk Trace InvKnown ChkKnown IterBase ChkIter ChkAll.
+From OCI.proofs Require Import GapFree.
 Open Scope N_scope.
 
-Check all_C06 : forall e, src_env e -> forall progs, wf_progs progs -> forall sched,
+Check all_C06 : forall e, src_env e -> fused e -> forall progs, wf_progs progs -> forall sched,
   nowrap (c_labels (exec e (init progs) sched)) ->
   check_prop 6 e (c_trace (exec e (init progs) sched)) (c_labels (exec e (init progs) sched)) = true.
-Theorem c06_skip_to_end : forall e, src_env e -> forall progs, wf_progs progs -> forall sched,
+Theorem c06_skip_to_end : forall e, src_env e -> fused e -> forall progs, wf_progs progs -> forall sched,
   nowrap (c_labels (exec e (init progs) sched)) ->
   check_prop 6 e (c_trace (exec e (init progs) sched)) (c_labels (exec e (init progs) sched)) = true.
 Proof. exact all_C06. Qed.
 Print Assumptions c06_skip_to_end.
 
+(** the stopping clause for every wrapped iterator, fused or not: after skip_to_end has returned, no call
+    delivers an element, pulls report the end, the length queries answer zero *)
+Theorem c06_skip_stops_any_iterator : forall e, iter_env e -> forall progs, wf_progs progs -> forall sched,
+  nowrap (c_labels (exec e (init progs) sched)) ->
+  chk_C06_stop e (c_trace (exec e (init progs) sched)) = true.
+Proof. exact iter_C06_stop. Qed.
+Print Assumptions c06_skip_stops_any_iterator.
+
+(** a wrapped iterator that is not fused: the whole of C06, on every run on which the wrapped next() has not yet answered None although elements remain *)
+Theorem c06_skip_to_end_until_first_gap : forall e, iter_env e -> forall progs, wf_progs progs -> forall sched,
+  nowrap (c_labels (exec e (init progs) sched)) ->
+  gap_free e (s_calls (c_sh (exec e (init progs) sched))) ->
+  check_prop 6 e (c_trace (exec e (init progs) sched)) (c_labels (exec e (init progs) sched)) = true.
+Proof. exact iter_C06_until_gap. Qed.
+Print Assumptions c06_skip_to_end_until_first_gap.
